@@ -52,6 +52,15 @@ DtreeEventOK(e) ==
   /\ SameBag(Leaves(e.tree), e.cnf)                               \* exactly the CNF's clauses as leaves
   /\ DTreeOK(e.tree, {})
 
+(* L2 (MODEL-DRIFT only): the recorded trees are the very trees eo2dtree / from_dtree as transcribed in DTreeAlgo build *)
+DT == INSTANCE DTreeAlgo WITH InitFinal <- TRUE
+RECURSIVE NormD(_)
+NormD(t) == IF IsLeafD(t) THEN <<"l", t[2], ToSet(t[3]), ToSet(t[4])>>
+            ELSE <<"n", NormD(t[2]), NormD(t[3]), ToSet(t[4]), ToSet(t[5])>>
+DtreeDrift(e) == e.cnf # << >> /\ NormD(e.tree) # DT!FromCnf(e.cnf, e.elim)
+VtreeDrift(e) == "dtree" \in DOMAIN e /\ e.cnf # << >> /\
+                 (IF "none" \in DOMAIN e THEN DT!None ELSE e.tree) # DT!FromDtree(NormD(e.dtree))
+
 (* --- vtree derived from a dtree: every CNF variable exactly one leaf --- *)
 CnfVars(cnf) == UNION {ClauseVars(cnf[i]) : i \in 1 .. Len(cnf)}
 VtreeDtOK(e) ==
@@ -87,6 +96,8 @@ Init == l = 2
 Step == /\ l <= Len(Rec) /\ l' = l + 1
         /\ "panic" \notin DOMAIN Rec[l] /\ "inexact" \notin DOMAIN Rec[l]
         /\ EventOK(Rec[l])
+        /\ (IF Rec[l].ev = "dtree" /\ DtreeDrift(Rec[l]) THEN PrintT(<<"DRIFT", l>>) ELSE TRUE)
+        /\ (IF Rec[l].ev = "vtree_dt" /\ VtreeDrift(Rec[l]) THEN PrintT(<<"DRIFT", l>>) ELSE TRUE)
 Spec == Init /\ [][Step]_l
 Accepted ==
   LET d == TLCGet("stats").diameter IN
